@@ -86,6 +86,8 @@ def step(M):
     unpred | notimpl | skip"""
     M.branched = False
     try:
+        if M.s['cpsr'] & (1 << 24):
+            raise Skip('Jazelle / ThumbEE state is not modelled')
         w, nbits = fetch(M)
         M.word, M.ilen = w, nbits // 8
         row = None
